@@ -83,12 +83,19 @@ func c17Gen(g *Gen) {
 		pprof.StartCPUProfile(f)
 		defer pprof.StopCPUProfile()
 	}
+	// harness/rng.go seeds splitmix64 with seed*gamma, so consecutive seeds give the same stream shifted by one
+	// draw; re-seed from the first output to get unrelated streams for different VERIF_SEEDs
+	g.R = NewRng(g.R.U64())
 	r := g.R
 	kind := 0
 	if os.Getenv("C17_DEV_ORIG") != "" {
 		kind = 9 // development only: compare with the model of the original NewSink (lk = false)
 	}
 	emit := func(cls string, nthr, maxn int, ops []c17Op) {
+		if c17GiveUp() {
+			g.Count("_not-run-after-hangs")
+			return
+		}
 		g.Count(cls)
 		g.Case(kind, nil, c17Encode(nthr, maxn, ops))
 	}
@@ -117,9 +124,9 @@ func c17Gen(g *Gen) {
 		num, den := 1, 1
 		if !g.Thorough() {
 			if kind == 0 {
-				num, den = 1, 2
+				num, den = 1, 3
 			} else {
-				num, den = 1, 8
+				num, den = 1, 12
 			}
 		}
 		for t := 0; t < 2; t++ {
@@ -149,7 +156,7 @@ func c17Gen(g *Gen) {
 			rl = append(rl, c17Op{7, c17ReloadWho, 0, false})
 			num, den := 1, 1
 			if !g.Thorough() {
-				num, den = 1, 3*j
+				num, den = 1, 5*j
 			}
 			c17Interleave([][]c17Op{c17ConnProgram(0, 0, false), c17ConnProgram(1, 1, false), rl},
 				sampled("C:reload-stepped", 2, 3, num, den))
@@ -221,7 +228,7 @@ func c17Gen(g *Gen) {
 	}
 
 	// E: random longer schedules
-	for i := 0; i < g.Pick(4000, 150000); i++ {
+	for i := 0; i < g.Pick(3000, 150000); i++ {
 		c17Random(g, emit, false)
 	}
 	for i := 0; i < g.Pick(800, 20000); i++ {
